@@ -156,17 +156,57 @@ Section RuleModel.
         Ok (t :: ts, copy'')
     end.
 
+  (* A failure's value is a reference into the document the rule was judged on.  For a rule with
+     casts that is the shared copy, which later rules keep writing to: a container value therefore
+     shows the final state of the copy (scalars are immutable and stay as judged). *)
+  Definition refresh_failure (final : pyval) (f : failure) : failure :=
+    match f_value f with
+    | VList _ | VDict _ =>
+        match get_at final (path_keys (f_path f)) with
+        | Some v => {| f_index := f_index f; f_value := v; f_path := f_path f; f_reasons := f_reasons f |}
+        | None => f
+        end
+    | _ => f
+    end.
+  Definition refresh_test (final : pyval) (r : rule) (t : rtest) : rtest :=
+    match r_cast r with
+    | [] => t
+    | _ => {| rt_valid := rt_valid t; rt_tested := rt_tested t;
+              rt_failures := map (refresh_failure final) (rt_failures t); rt_data := rt_data t |}
+    end.
+  Fixpoint refresh_tests (final : pyval) (rs : list rule) (ts : list rtest) : list rtest :=
+    match rs, ts with r :: rs', t :: ts' => refresh_test final r t :: refresh_tests final rs' ts' | _, _ => [] end.
+
   Definition validate (rules : list rule) (doc : pyval) : res vresult :=
     let* _ := mk_data doc in
-    let* (ts, copy) := run_rules (sort_rules rules) doc doc in
+    let* (ts0, copy) := run_rules (sort_rules rules) doc doc in
+    let ts := refresh_tests copy (sort_rules rules) ts0 in
     Ok {| v_valid := forallb rt_valid ts;
           v_num_failures := fold_right (fun t n => (List.length (rt_failures t) + n)%nat) O ts;
           v_num_tested := List.length (filter rt_tested ts);
           v_tests := ts; v_cast_data := copy |}.
 
+  (* data-path arguments are objects built before the constructor that receives them is called *)
+  Definition check_arg (a : arg1) : res unit :=
+    match a with ALit _ => Ok tt | APath _ pt => let* _ := mk_path T id0 pt in Ok tt end.
+  Fixpoint check_args (l : list arg1) : res unit :=
+    match l with [] => Ok tt | a :: r => let* _ := check_arg a in check_args r end.
+  Fixpoint check_kw (l : list (string * arg1)) : res unit :=
+    match l with [] => Ok tt | (_, a) :: r => let* _ := check_arg a in check_kw r end.
+
+  Fixpoint build1 (t : dslc arg1) : res (cond arg1) :=
+    match t with
+    | DLeaf cls m pos kw =>
+        let* _ := check_args pos in
+        let* _ := check_kw kw in
+        let* l := build_leaf T lit1 cls m pos kw in Ok (CLeaf l)
+    | DNull => Ok CNull
+    | DBin o a b => let* x := build1 a in let* y := build1 b in mk_bin o x y
+    end.
+
   Definition mk_rule (t : ruleterm) : res rule :=
     let* p := mk_path T id0 (rt_path_t t) in
-    let* c := build T lit1 (rt_cond_t t) in
+    let* c := build1 (rt_cond_t t) in
     Ok {| r_path := p; r_cond := c; r_cast := rt_cast_t t |}.
 
   Fixpoint mk_rules (ts : list ruleterm) : res (list rule) :=
